@@ -84,6 +84,15 @@ def gen_scenarios(ctx):
                         for subset in ([[0]] if n == 2 else [[0], [1], [0, 2]]):
                             if rng.random() < (0.5 if ctx.quick else 1.0):
                                 sc.append(dict(cfg=cfg, n=n, stream=stream, route=route, crash=(cp, subset)))
+    # four blocks: every pair of inner kinds (e.g. an optional block that is skipped into a looping one)
+    for inner in itertools.product(G.INNER, repeat=2):
+        shape = ["R"] + list(inner) + ["R"]
+        p = insensitive(G.pattern(1, G.assign(shape, 0, "distinct")))
+        cfg = dict(phen=[(1, [p])], maxcache=rng.choice([0, 30]), idbase=1000)
+        for stream in ([1, 2, 3, 3, 4], [1, 3, 3, 4], [1, 3, 2, 4], [1, 2, 2, 3, 4], [1, 4, 3, 4]):
+            for route in ([0] * len(stream), [0, 0] + [1] * (len(stream) - 2), [0, 1] * 3, [1, 0, 0, 1, 1, 0]):
+                sc.append(dict(cfg=cfg, n=2, stream=stream, route=route[:len(stream)], crash=None))
+            sc.append(dict(cfg=cfg, n=3, stream=stream, route=[0, 1, 2, 0, 1][:len(stream)], crash=(len(stream) - 1, [0])))
     for _ in range(250 if ctx.quick else 6000):
         cfg = G.rand_config(rng, maxcache=rng.choice([0, 40]), maxblocks=5)
         if not no_ts(cfg):
